@@ -1372,6 +1372,13 @@ class Process(StateMachine, persistence.Savable, metaclass=ProcessStateMachineMe
             else:
                 # Everything nominal so transition to the next state
                 self.transition_to(next_state)
+                if (
+                    self._interrupt_action is not None
+                    and not self._interrupt_action.done()
+                    and not self.has_terminated()
+                ):
+                    # Requested while transitioning (e.g. by a listener), enact it right away
+                    self._interrupt_action.run(None)
 
         finally:
             self._stepping = False
